@@ -7,9 +7,31 @@
    All theorems are for ALL n >= 0 and ALL k (not only k <= 4). *)
 From Coq Require Import ZArith List Sorting.Sorted Sorting.Permutation.
 From Batchie Require Import Lib.Sexp Model.Unrank Model.Binom
-  Proofs.C15Binom Proofs.C15Unrank Proofs.C15Enum.
+  Proofs.C15Binom Proofs.C15Unrank Proofs.C15Enum Proofs.C15Src Generated.SrcArith.
 Import ListNotations.
 Open Scope Z_scope.
+
+(* the loops of the model ARE the source's loops: the src_* definitions are translated statement by
+   statement from generate_combination_at_sorted_index on every run (harness/py2coq.py); the model
+   adds only the ZeroDivisionError guard and fuel *)
+Theorem C15_model_is_source_loops :
+  (forall n k, init_nck n k
+     = fold_left (fun acc i => src_init_body acc (n - Z.of_nat i + 1) (Z.of_nat i)) (seq 1 k) 1) /\
+  (forall f index k cur nck n, unrank_inner (S f) index k cur nck n =
+     if src_inner_cond cur nck index then
+       let '(cur', nck', n') := src_inner_body cur nck n k in
+       if n' =? 0 then Err 8 else unrank_inner f index k cur' nck' n'
+     else Ok (cur, nck, n)) /\
+  (forall index k ks cur nck n, unrank_outer index (k :: ks) cur nck n =
+     if n =? 0 then Err 8
+     else
+       dor st <- unrank_inner (S (Z.to_nat n)) index k cur (src_outer_pre nck k n) n;
+       let '(cur, nck, n) := st in
+       let n := src_outer_post n in
+       dor rest <- unrank_outer index ks cur nck n;
+       Ok (n :: rest)).
+Proof. exact (conj init_nck_is_source (conj unrank_inner_is_source unrank_outer_is_source)). Qed.
+Print Assumptions C15_model_is_source_loops.
 
 (* the binomial the statements use is the usual one *)
 Theorem C15_binomial_is_factorial_quotient : forall n k, (k <= n)%nat ->
